@@ -153,6 +153,18 @@ CHECKS = {
         'Trusts: PYTHONUTF8=1 for the default file encoding; error normalisation removes only the source name and '
         'PyYAML\'s snippet.',
         'DESIGN.md 3 C12'),
+    'C13': (
+        'exhaustive enumeration of (class model x document x meaning-preserving transformation) triples; the two '
+        'outcomes of every pair are compared on the real load function (metamorphic, no reference model)',
+        'For every (model, document) pair of the auto-recognition catalogue, bool-unions and hierarchies: every '
+        'permutation of the keys of every class mapping (<= 4 keys, rotations above), six re-serialisations (flow, '
+        'single-/double-quoted, canonical, JSON-like, narrow block; each composed back and compared with the node '
+        'tree), unrelated classes registered before and after, every List/Sequence/MutableSequence and '
+        'Dict/Mapping/MutableMapping assignment (all 3^n for n <= 3 positions) and bool_union_fix added to every '
+        'Union containing bool; the outcome must be an equal value or failure in both.',
+        'Trusts: the type-directed walk that decides which mappings are class mappings; name-based structural '
+        'equality across two builds of a model. Extras are compared unordered under key permutation only.',
+        'DESIGN.md 3 C13'),
 }
 
 NOT_BUILT = {}
